@@ -1626,7 +1626,9 @@ namespace adept {
 
     template <int n>
     int alignment_offset_() const {
-      return (reinterpret_cast<std::size_t>(data_)/sizeof(Type)) % n; 
+      // Number of elements before the first one on an alignment
+      // boundary, as Array::alignment_offset_
+      return (n - (reinterpret_cast<std::size_t>(data_)/sizeof(Type)) % n) % n;
     }
 
     Type value_with_len_(const Index& j, const Index& len) const {
